@@ -5,8 +5,8 @@
 EXTENDS Integers, Sequences, FiniteSets, TLC
 
 None == 1000
-Valid     == {1, 2, 3, 4}
-Coercible == {11, 12, 13}
+Valid     == (1..9) \cup (20..98)    \* ordinary items (the model checker uses 1..4; recorded test-suite traces up to 88)
+Coercible == 11..19
 Invalid   == {99}
 VModes    == {"id", "coerce", "strict"}
 \* "id": no validation; "coerce": casts Coercible items; "strict": only Valid items
